@@ -1148,6 +1148,9 @@ class Interp:
             if is_conc(args[0]) and is_conc(order):
                 return int.from_bytes(args[0], order)
             return S(('bytes2int', term(args[0]), term(order)), 'int')
+        if mod == 'int' and name == 'to_bytes' and len(args) >= 2:
+            order = args[2] if len(args) > 2 else kwargs.get('byteorder', 'big')
+            return S(('int2bytes', term(args[0]), term(args[1]), term(order)), 'bytes')
         if mod == 'hashlib' and name in ('sha256', 'sha1', 'sha512', 'new', 'ripemd160'):
             return S(('call', 'hashlib.' + name, tuple(term(a) for a in args), _kw(kwargs)))
         return NotImplemented
@@ -1419,6 +1422,8 @@ def _as_load(target):
 # ---------------------------------------------------------------------------------------------
 
 def subterms(t):
+    if isinstance(t, tuple) and not t:
+        return
     yield t
     if isinstance(t, tuple):
         for x in t:
